@@ -465,7 +465,8 @@ theorem commute_proj_generic (cols : Cols) (cur : UOp) (tcols : Cols) (l : List 
         f.wfOn tcols = true ∧ cur.wfOn fc = true ∧ (UOp.proj cols).wfOn sc = true ∧
           (UOp.proj cols).sem ((UOp.proj cols).appliedColumns sc) (cur.sem sc (f.sem fc l)) =
             (UOp.proj cols).sem ((UOp.proj cols).appliedColumns (cur.appliedColumns tcols))
-              (cur.sem (cur.appliedColumns tcols) l)
+              (cur.sem (cur.appliedColumns tcols) l) ∧
+          (∀ x, x ∈ sc → x ∈ cur.appliedColumns tcols)
       else
         let f := UOp.proj cols
         let fc := f.appliedColumns tcols
@@ -491,10 +492,14 @@ theorem commute_proj_generic (cols : Cols) (cur : UOp) (tcols : Cols) (l : List 
       · exact (Cols.subset_iff _ _).mp hreq x hx
     have hreq' : cur.columnsRequired.subset (cols.union cur.columnsRequired) = true := by
       rw [Cols.subset_iff]; intro x hx; exact (Cols.mem_union _ _ x).mpr (Or.inr hx)
-    refine ⟨by rw [UOp.wfOn_proj]; exact hsub, ?_, ?_, ?_⟩
+    refine ⟨by rw [UOp.wfOn_proj]; exact hsub, ?_, ?_, ?_, ?_⟩
     · rw [hwf]; exact hreq'
     · simp only [UOp.wfOn_proj, UOp.appliedColumns_proj, hkeep]
       rw [Cols.subset_iff]; intro x hx; exact (Cols.mem_union _ _ x).mpr (Or.inl hx)
+    rotate_left
+    · intro x hx
+      simp only [UOp.appliedColumns_proj, hkeep] at hx ⊢
+      exact (Cols.subset_iff _ _).mp hsub x hx
     · simp only [UOp.sem_proj, UOp.appliedColumns_proj]
       rw [hloc (cols.union cur.columnsRequired) hreq' _ (cur.appliedColumns tcols), List.map_map]
       apply List.map_congr_left
@@ -523,7 +528,7 @@ theorem commute_proj_keep (cols : Cols) (cur : UOp) (tcols : Cols) (l : List Row
   · simp only [h, Bool.not_true, Bool.false_eq_true, if_false] at g ⊢
     exact ⟨g.1, g.2.1, g.2.2.1, g.2.2.2⟩
   · simp only [h, Bool.not_false, if_true] at g ⊢
-    refine ⟨g.1, g.2.1, g.2.2.1, g.2.2.2, ?_⟩
+    refine ⟨g.1, g.2.1, g.2.2.1, g.2.2.2.1, ?_, g.2.2.2.2⟩
     intro x
     simp only [UOp.appliedColumns_proj]
 
@@ -642,7 +647,14 @@ theorem commute_proj (cols : Cols) (cur : UOp) (tcols : Cols) (l : List Row)
           · exact ((hcm tag).mp hm).2 rfl
           · exact htage hm
         · rw [if_neg (by simp)]
-          refine ⟨?_, ?_, fun _ => Iff.rfl⟩
+          refine ⟨?_, ?_, fun _ => Iff.rfl, ?_⟩
+          rotate_left 2
+          · intro x hx
+            simp only [UOp.appliedColumns, Cols.mem_insert, Cols.mem_union] at hx ⊢
+            rcases hx with (hx | hx) | hx
+            · exact Or.inl (hcmsub x hx)
+            · exact Or.inl ((Cols.subset_iff _ _).mp hereq x hx)
+            · exact Or.inr hx
           · rw [UOp.wfOn_proj, Cols.subset_iff]
             intro x hx
             simp only [UOp.appliedColumns, Cols.mem_insert, Cols.mem_union, hcm]
